@@ -56,9 +56,24 @@ static void run_ve(Maximisers & M, int call, const F::Action & A, const Rules & 
     Line l; l << "C13" << "ve" << call; l.nats(A); putRules(l, rules); l << "|"; l.nats(a) << v; l.emit();
 }
 
+// the bookkeeping of FactorGraph::getFactor as the maximisers see it: node order, and per agent the neighbour list
+// (`getVariables(a)`, built by incremental sorted unions) and the adjacent factors in `getFactors(a)` order
+static void put_graph(const FB::LocalSearch::Graph & g, int call, const F::Action & A) {
+    Line l; l << "C13" << "lsgraph" << call; l.nats(A); l << (size_t)g.factorSize();
+    for (auto f = g.begin(); f != g.end(); ++f) l.nats(f->getVariables());
+    l << "|";
+    for (size_t a = 0; a < A.size(); ++a) {
+        l.nats(g.getVariables(a));
+        l << (size_t)g.getFactors(a).size();
+        for (auto it : g.getFactors(a)) l.nats(it->getVariables());
+    }
+    l.emit();
+}
+
 static void run_approx(Maximisers & M, int call, const F::Action & A, const Rules & rules) {
     auto & g = *M.lsGraph;
     FB::UpdateGraph<FB::LocalSearch>()(g, rules, A);
+    if (call == 0) put_graph(g, call, A);
     {
         auto [a, v] = M.ls(A, g);
         Line l; l << "C13" << "ls" << call; l.nats(A); putRules(l, rules); l << "|"; l.nats(a) << v; l.emit();
@@ -101,6 +116,7 @@ static void run_ve_qf(Maximisers & M, int call, const F::Action & A, const FB::Q
 static void run_approx_qf(Maximisers & M, int call, const F::Action & A, const FB::QFunction & qf) {
     auto & g = *M.lsGraphQF;
     FB::UpdateGraph<FB::LocalSearch>()(g, qf, A);
+    if (call == 0) put_graph(g, call, A);
     {
         auto [a, v] = M.ls(A, g);
         Line l; l << "C13" << "lsqf" << call; l.nats(A); putQF(l, qf); l << "|"; l.nats(a) << v; l.emit();
